@@ -101,6 +101,17 @@ func (r *Request) Msg() *dns.Msg {
 	return r.msg
 }
 
+// clientSentOPT reports whether the client's own packet carried an OPT. For a
+// wire-born request that is the parsed fact, whatever a later materialization
+// appended for the upstream query; a message-born request has only its message
+// to go by.
+func (r *Request) clientSentOPT() bool {
+	if r.wireBorn() {
+		return r.hasOPT
+	}
+	return r.msg != nil && r.msg.IsEdns0() != nil
+}
+
 // Undecoded reports whether the request is still wire-only — no message
 // has been built for it. It is the gate a handler puts in front of its
 // wire branch: reading it never triggers a decode, where Msg does.
